@@ -232,6 +232,7 @@ func (w *TCP) maybeFinal() {
 		return
 	}
 	w.check()
+	CheckRecoveredPanics(w.S, w.Stats)
 	w.finished = true
 }
 
